@@ -281,4 +281,45 @@ theorem restoreL_rep (H : Bytes → Bytes) (mode : Mode) : ∀ (ns : List Node) 
     · exact rep_persist h
     · exact h
 
+/-! ### state jump through the layers -/
+
+theorem get_fold_del (ks : List (Bytes × Cell)) : ∀ (l : Lay) (k : Bytes),
+    (ks.foldl (fun a e => a.set e.1 none) l).get k = if k ∈ ks.map (·.1) then none else l.get k := by
+  induction ks with
+  | nil => intro l k; simp
+  | cons e r ih =>
+    intro l k
+    rw [List.foldl_cons, ih, get_set]
+    by_cases h1 : k ∈ r.map (·.1)
+    · simp [h1]
+    · by_cases h2 : k = e.1
+      · simp [h2]
+      · simp [h1, h2]
+
+theorem sget_none_of_not_mem (s : Store) (k : Bytes) (h : k ∉ s.map (·.1)) : sget s k = none := by
+  induction s with
+  | nil => rfl
+  | cons e r ih =>
+    obtain ⟨a, c⟩ := e
+    simp only [List.map_cons, List.mem_cons, not_or] at h
+    simp only [sget]
+    rw [if_neg (fun e => h.1 e.symm)]
+    exact ih h.2
+
+/-- `CleanStorage` (module.go:207-223): afterwards the layers show no record at all. -/
+theorem rep_clean (l : Lay) : Rep (cleanL l) [] := by
+  intro k
+  unfold cleanL
+  rw [get_fold_del]
+  split
+  · rfl
+  · rename_i h
+    rw [← sget_view]; exact sget_none_of_not_mem _ _ h
+
+/-- a state jump through the layers (CleanStorage, Billet restore with any persists in between) shows
+exactly the store of the single-store model's `jumpSt`. -/
+theorem rep_jump (H : Bytes → Bytes) (s : St) (l : Lay) (idx : Nat) (t : Node) (sched : List Bool) :
+    Rep (jumpLay H s.mode l t sched) (jumpSt H s idx t).store :=
+  restoreL_rep H s.mode (positions t) (cleanL l) [] sched (rep_clean l)
+
 end NeoModel.MptRc
